@@ -232,7 +232,20 @@ func addCandidate(c candidate) {
 		return
 	}
 	old.Count++
-	if c.Rank < old.Rank || (c.Rank == old.Rank && shorter(c.Input, old.Input)) {
+	better := c.Rank < old.Rank
+	if c.Rank == old.Rank {
+		switch {
+		case !bytes.Equal(c.Input, old.Input):
+			better = shorter(c.Input, old.Input)
+		case c.GrowthF != old.GrowthF:
+			better = c.GrowthF < old.GrowthF
+		case c.GrowthN != old.GrowthN:
+			better = c.GrowthN < old.GrowthN
+		default:
+			better = c.Variant < old.Variant
+		}
+	}
+	if better {
 		old.Rank = c.Rank
 		old.Input = append([]byte{}, c.Input...)
 		old.Variant, old.What, old.Family, old.GrowthF, old.GrowthN, old.Death = c.Variant, c.What, c.Family, c.GrowthF, c.GrowthN, c.Death
